@@ -88,6 +88,8 @@ type C15Scn struct {
 	Muts    []string          `json:"mutations,omitempty"`
 	MutSeed uint64            `json:"mut_seed,omitempty"`
 	Fault   string            `json:"fault,omitempty"`
+	Many    int               `json:"many,omitempty"`     // mode many: number of elements in the indexed list
+	BadAt   int               `json:"bad_at,omitempty"`   // mode many: 1-based index of a dangling reference (0 = none)
 }
 
 func (s *C15Scn) knobs() SimKnobs { return s.Knobs }
@@ -130,13 +132,19 @@ var probeAttrs = []attrKind{
 
 func (c15) Gen(rt *rapid.T, thorough bool) any {
 	s := &C15Scn{Knobs: genKnobs(rt), Style: genStyle(rt)}
-	s.Mode = rapid.SampledFrom([]string{"probe", "probe", "probe", "types", "mutate", "mutate", "iofail"}).Draw(rt, "mode")
+	s.Mode = rapid.SampledFrom([]string{"probe", "probe", "probe", "types", "mutate", "mutate", "iofail", "many"}).Draw(rt, "mode")
 	switch s.Mode {
+	case "many":
+		// an indexed element list longer than anything a test writes by hand
+		s.Many = rapid.SampledFrom([]int{3, 10, 11, 12, 25, 101}).Draw(rt, "many")
+		if rapid.IntRange(0, 2).Draw(rt, "many_bad") == 0 {
+			s.BadAt = rapid.IntRange(1, s.Many).Draw(rt, "bad_at")
+		}
 	case "probe":
 		s.Inline = rapid.Bool().Draw(rt, "inline")
 		for _, a := range probeAttrs {
 			pa := PAttr{Name: a.name}
-			r := rapid.IntRange(0, 19).Draw(rt, "how")
+			r := rapid.IntRange(0, 21).Draw(rt, "how")
 			switch {
 			case r < 9:
 				pa.How, pa.Val = "set", rapid.SampledFrom(a.good).Draw(rt, "good")
@@ -149,6 +157,11 @@ func (c15) Gen(rt *rapid.T, thorough bool) any {
 				pa.How, pa.Val = "chain", rapid.SampledFrom(a.good).Draw(rt, "good_chain")
 			case r < 18:
 				pa.How = "missing-prop"
+			case r == 20:
+				pa.How = "node-prop" // ${key} where key names a sub-tree of the configuration, not a property
+			case r == 21:
+				// a property whose value looks like an empty collection or a nil: still just text
+				pa.How, pa.Val = "odd-prop", rapid.SampledFrom([]string{"{}", "[]", "<nil>"}).Draw(rt, "odd")
 			default:
 				if len(a.bad) > 0 {
 					pa.How, pa.Val = "bad", rapid.SampledFrom(a.bad).Draw(rt, "bad")
@@ -167,7 +180,7 @@ func (c15) Gen(rt *rapid.T, thorough bool) any {
 	case "mutate":
 		n := rapid.IntRange(1, 4).Draw(rt, "nmut")
 		for i := 0; i < n; i++ {
-			s.Muts = append(s.Muts, rapid.SampledFrom([]string{"drop", "garbage", "dup-case", "conflict", "truncate-expr", "unknown-key", "empty-value", "index-gap", "bad-type"}).Draw(rt, "mut"))
+			s.Muts = append(s.Muts, rapid.SampledFrom([]string{"drop", "garbage", "dup-case", "conflict", "truncate-expr", "unknown-key", "empty-value", "index-gap", "bad-type", "key-trailing-sep", "key-double-sep", "key-odd-chars"}).Draw(rt, "mut"))
 		}
 		s.MutSeed = rapid.Uint64().Draw(rt, "mut_seed")
 	case "iofail":
@@ -214,6 +227,8 @@ func (c c15) Run(x *Exec, scn any) {
 		c.runTypes(x, s, fullConfig(s.Style).Render(), true)
 	case "mutate":
 		c.runMutate(x, s)
+	case "many":
+		c.runMany(x, s)
 	case "iofail":
 		errno := map[string]syscall.Errno{"ENOENT": syscall.ENOENT, "EACCES": syscall.EACCES, "EMFILE": syscall.EMFILE, "ENOSPC": syscall.ENOSPC}[s.Fault]
 		x.FS.AddFault(&simos.FaultRule{Op: "open", Prefix: "/logs", Err: errno, Skip: int(s.Knobs.MapSeed % 4), Count: -1})
@@ -367,6 +382,20 @@ func (c c15) runProbe(x *Exec, s *C15Scn) {
 			put(a.Name, "${absent_"+a.Name+"}")
 			wantErr = "property for " + a.Name + " absent"
 			continue
+		case "node-prop":
+			nontrivial = true
+			put(a.Name, "${appender}")
+			wantErr = "property for " + a.Name + " absent: 'appender' is a section of the configuration, not a top-level property"
+			continue
+		case "odd-prop":
+			nontrivial = true
+			prop := "odd_" + a.Name
+			cfg[caseKey(prop, s.Style.KeyCase)] = val
+			put(a.Name, "${"+prop+"}")
+			if ak.kind != "str" {
+				wantErr = fmt.Sprintf("ill-typed %s: the substituted value %q does not convert to %s", a.Name, val, ak.kind)
+				continue
+			}
 		case "bad":
 			nontrivial = true
 			put(a.Name, val)
@@ -508,6 +537,49 @@ func (c c15) runTypes(x *Exec, s *C15Scn, cfg map[string]string, mustSucceed boo
 	}
 }
 
+// runMany: one logger with s.Many indexed appender references; every one of them is an element
+// of the list - each receives the event, and a dangling reference at any index is an error.
+func (c c15) runMany(x *Exec, s *C15Scn) {
+	o := x.Out
+	st := s.Style
+	st.Indexed, st.Inline = true, 0
+	sp := &SysSpec{Style: st, Props: map[string]string{"enableCaller": "false"}}
+	lg := LogSpec{Name: "root", Type: "Logger"}
+	for i := 0; i < s.Many; i++ {
+		name := fmt.Sprintf("m%d", i)
+		sp.Apps = append(sp.Apps, AppSpec{Name: name, Type: "Rec"})
+		if s.BadAt == i+1 {
+			name = "ghost"
+		}
+		lg.Refs = append(lg.Refs, RefSpec{Ref: name})
+	}
+	sp.Logs = []LogSpec{lg}
+	cfg := sp.Render()
+	err, ok := c.refresh(x, cfg)
+	if !ok {
+		return
+	}
+	o.Reached = s.Many > 10
+	defer x.do("destroy", func() { call(log.Destroy) })
+	if s.BadAt > 0 {
+		if err == nil {
+			o.violate("error-expected", "C15/invalid-attribute-accepted/dangling-in-long-list", "Refresh must fail: reference %d of %d names no appender, but it succeeded", s.BadAt, s.Many)
+		}
+		return
+	}
+	if err != nil {
+		o.violate("valid-rejected", "C15/valid-attributes-rejected", "Refresh rejected a logger with %d valid appender references: %v", s.Many, err)
+		return
+	}
+	x.do("use", func() { emit(0, 0, log.TagAppDef, "_app_def", EvOp{Kind: 2, Size: 3}, log.ErrorLevel) })
+	for i := 0; i < s.Many; i++ {
+		if n := len(getRec(fmt.Sprintf("m%d", i)).snapshot()); n != 1 {
+			o.violate("element-lost", "C15/indexed-list-element-ignored", "reference %d of %d received the event %d times: every indexed element belongs to the list", i, s.Many, n)
+			return
+		}
+	}
+}
+
 func (c c15) runMutate(x *Exec, s *C15Scn) {
 	sp := fullConfig(s.Style)
 	cfg := sp.Render()
@@ -521,7 +593,7 @@ func (c c15) runMutate(x *Exec, s *C15Scn) {
 		r = splitmix(r)
 		return int(r % uint64(n))
 	}
-	garbage := []string{"", "???", "-1", "99999999999999999999", "${nope}", "${", "{}", "[]", "<nil>", "Logger{", "true", "\x00", "a.b", "root"}
+	garbage := []string{"", "???", "-1", "99999999999999999999", "${nope}", "${", "{}", "[]", "<nil>", "Logger{", "true", "\x00", "a.b", "root", "${x_}", "${x-}", "${-}", "${}", "${appender}", "Discard{note_ = 1}", "Discard{a__b = 1}"}
 	for _, mut := range s.Muts {
 		k := keys[next(len(keys))]
 		switch mut {
@@ -544,6 +616,19 @@ func (c c15) runMutate(x *Exec, s *C15Scn) {
 			} else {
 				cfg[k+"!"] = "Logger{ level = "
 			}
+		case "key-trailing-sep":
+			// degenerate spellings of a key: a separator with nothing behind it
+			v := cfg[k]
+			delete(cfg, k)
+			cfg[strings.TrimSuffix(k, "!")+[]string{"_", "-", "__", "-_"}[next(4)]] = v
+		case "key-double-sep":
+			v := cfg[k]
+			delete(cfg, k)
+			k2 := caseKey(k, 1+next(2))
+			k2 = strings.Replace(strings.Replace(k2, "_", "__", 1), "-", "--", 1)
+			cfg[k2] = v
+		case "key-odd-chars":
+			cfg[[]string{"_", "-", "a._", "logger.root.-", "appender.con.layout._x", "x!", "!"}[next(7)]] = "1"
 		case "index-gap":
 			cfg["logger.l1.appenderRef[7].ref"] = "rec"
 		case "bad-type":
